@@ -297,7 +297,7 @@ class Run:
             reported += 1
 
     def triage(self, block, files, accepted, ids, specdir, module, cfg, diagcfg, features_of,
-               env=None, cap=40, describe=None, rerun_args=()):
+               env=None, cap=40, describe=None, rerun_args=(), require_repro=True, rerun_drv=None):
         """Common flow for rejected scenarios: reproduce (re-execute the inputs against the real
         code and validate again), locate the first event no action explains, classify."""
         rejected_ids = [i for i in ids if i not in accepted]
@@ -318,15 +318,19 @@ class Run:
                 fh.write(lines[i])
         rdir = os.path.join(self.tmp, "rerun-%s" % tag)
         os.makedirs(rdir, exist_ok=True)
-        p, sums, _ = self.drive(block, "rerun", "-in", rin, "-out", rdir, *rerun_args)
+        p, sums, _ = self.drive(block, "rerun", "-in", rin, "-out", rdir, *rerun_args, drv=rerun_drv)
         rfiles = []
         for sm in sums:
             rfiles += sm["files"]
         acc2, ids2 = self.validate(rfiles, specdir, module, cfg, env=env, procs=1, workers=4)
         flaky = [i for i in ids2 if i in acc2]
-        if flaky:
+        if flaky and require_repro:
             raise Infra("rejections not reproducible when re-executed alone: %s" % flaky[:5])
         rlines = scenario_lines(rfiles, pick)
+        if flaky:
+            # the property itself is about repeatability: the recorded disagreement is the evidence, keep the original scenario
+            for i in flaky:
+                rlines[i] = lines[i]
         at = self.diagnose([rlines[i] for i in pick if i in rlines], specdir, module, diagcfg, env=env)
         rej = []
         for i in pick:
